@@ -12,6 +12,7 @@ pydbml is involved).  For every token boundary / every token of a kind, every fa
   badvalue    every index type, reference operator, action and colour replaced by each value of a list of invalid ones
   aftercomment  at every line start: a `//` comment ending in \\, /*, a quote, a backtick, a brace ... (or a block comment)
               followed by a line that is not DBML — a comment must end at its line end and hide nothing
+  glued       every element keyword run together with the following bare name, or extended by one identifier character
   truncated   the document cut at every token boundary that leaves a brace / bracket / parenthesis open, and after every token
               that needs a continuation (Ref:, relation operator, `as`, element keyword, `:` of a setting)
 
@@ -244,7 +245,21 @@ def m_aftercomment(toks):
             yield f'block comment then {bad!r} after line break #{i}', text_of(toks[:i + 1] + ins + toks[i + 1:])
 
 
-MUTATORS = {'aftercomment': m_aftercomment, 'stray': m_stray, 'unclosed': m_unclosed, 'doubled': m_doubled, 'badword': m_badword, 'badvalue': m_badvalue, 'truncated': m_truncated}
+ELEMENT_KEYWORDS = {'table', 'enum', 'ref', 'tablegroup', 'project', 'note', 'indexes'}
+
+
+def m_glued(toks):
+    """an element keyword run together with the bare word that follows it (`Tablet {`, `Enume {`): not a keyword any more"""
+    for i, t in enumerate(toks):
+        if t.kind == 'kw' and t.text.lower() in ELEMENT_KEYWORDS and i + 2 < len(toks) and toks[i + 1].kind == 'ws':
+            nxt = toks[i + 2]
+            if nxt.kind == 'name' and not nxt.text.startswith('"'):
+                yield f'{t.text} glued to {nxt.text} #{i}', text_of(toks[:i + 1] + toks[i + 2:])
+            for junk in ('x', '_', '1'):
+                yield f'{t.text}{junk} #{i}', text_of(toks[:i] + [Tok(t.text + junk, 'raw')] + toks[i + 1:])
+
+
+MUTATORS = {'glued': m_glued, 'aftercomment': m_aftercomment, 'stray': m_stray, 'unclosed': m_unclosed, 'doubled': m_doubled, 'badword': m_badword, 'badvalue': m_badvalue, 'truncated': m_truncated}
 
 
 def units(tier, seed):
